@@ -1,7 +1,7 @@
 #!/usr/bin/env python3
 """Run every registered quick check against every behaviour-preserving refactoring in
 /verif/seeded_benign (applied in a scratch worktree); every check must stay at exit 0."""
-import json, os, subprocess, sys
+import json, os, shutil, subprocess, sys
 from concurrent.futures import ThreadPoolExecutor
 VERIF = os.path.dirname(os.path.dirname(os.path.abspath(__file__)))
 names = [a for a in sys.argv[1:] if not a.startswith("--")] or sorted(os.listdir(os.path.join(VERIF, "seeded_benign")))
@@ -9,8 +9,9 @@ PROPS = [f"C{i:02d}" for i in range(1, 21)]
 
 def run(name):
     wt = f"/tmp/benignwt_{name}"
-    subprocess.run(["git", "-C", "/repo", "worktree", "remove", "--force", wt], capture_output=True)
-    subprocess.run(["git", "-C", "/repo", "worktree", "add", "--detach", wt, "HEAD", "-q"], check=True, capture_output=True)
+    shutil.rmtree(wt, ignore_errors=True)
+    os.makedirs(wt)
+    subprocess.run(f"git -C /repo archive HEAD | tar -x -C {wt}", shell=True, check=True)
     try:
         r = subprocess.run(["git", "-C", wt, "apply", os.path.join(VERIF, "seeded_benign", name, "patch.diff")], capture_output=True, text=True)
         if r.returncode:
@@ -23,7 +24,7 @@ def run(name):
                 res[p] = (r.returncode, lines[:4])
         return name, res
     finally:
-        subprocess.run(["git", "-C", "/repo", "worktree", "remove", "--force", wt], capture_output=True)
+        shutil.rmtree(wt, ignore_errors=True)
 
 bad = 0
 with ThreadPoolExecutor(6) as ex:
